@@ -468,9 +468,10 @@ unsafe fn clear_cache(start: *mut u8, end: *mut u8) {
 
     #[cfg(target_os = "macos")]
     {
-        // The cache is invalidated in patch_function.
-        let _ = start;
-        let _ = end;
+        // patch_function() invalidates the range of an entry patch itself, but trampoline contents are
+        // written through inject_asm_code() alone and reach the instruction cache only from here.
+        let size = end.offset_from(start) as usize;
+        sys_icache_invalidate(start, size);
     }
 
     // On ARM64, explicitly synchronize the CPU pipeline.
